@@ -50,8 +50,9 @@ def opAids : Op → List Nat
   | .sub _ a _ => [a] | .unsub _ a _ => [a] | _ => []
 
 def natsStr (xs : List Nat) : String := ",".intercalate (xs.map toString)
-def rowsStr (xs : List (Nat × Nat)) : String := ",".intercalate (xs.map (fun p => s!"{p.1}.{p.2}"))
-def valsStr (xs : List (Nat × Nat)) : String := ",".intercalate (xs.map (fun p => toString p.2))
+def rowsStr (xs : List (Nat × Nat)) : String := ",".intercalate (xs.map (fun p => s!"{p.1}.{p.2 / 2}"))
+def rowsRaw (xs : List (Nat × Nat)) : String := ",".intercalate (xs.map (fun p => s!"{p.1}.{p.2}"))
+def valsStr (xs : List (Nat × Nat)) : String := ",".intercalate (xs.map (fun p => toString (p.2 / 2)))
 def sortNat (xs : List Nat) : List Nat := (xs.toArray.qsort (· < ·)).toList
 def dedup (xs : List Nat) : List Nat := xs.foldl (fun acc x => if acc.contains x then acc else acc ++ [x]) []
 
@@ -64,9 +65,9 @@ def obs (ids qs aids : List Nat) (s : LSt) : String :=
   s!"R={r}_Q={q}_K={k}_D={rowsStr s.db}_P={natsStr (aids.filter s.prov)}_C={natsStr (aids.filter s.cons)}_S={natsStr s.subs}_E={s.err}"
 
 def fullKey (ids qs aids : List Nat) (s : LSt) : String :=
-  let regs := ";".intercalate (ids.map (fun o => natsStr ((List.range 8).map (s.reg o)) ++ "/" ++ rowsStr (s.rows o) ++ "/" ++
+  let regs := ";".intercalate (ids.map (fun o => natsStr ((List.range 8).map (s.reg o)) ++ "/" ++ rowsRaw (s.rows o) ++ "/" ++
     natsStr (s.regS o) ++ "/" ++ natsStr (s.regT o)))
-  s!"{obs ids qs aids s}#{s.nextId}#{regs}"
+  s!"{obs ids qs aids s}#{s.nextId}#{rowsRaw s.db}#{regs}"
 
 structure XS where
   sys : Sys LSt
